@@ -1,5 +1,6 @@
-// okl2cpp — translate an OKL kernel file with the real serial / openmp parsers of libocca.
-//   okl2cpp <serial|openmp> <in.okl> <out.cpp>      exit 0 ok, 3 parser reported errors, 4 exception
+// okl2cpp — translate an OKL kernel file with the real translators of libocca.
+//   okl2cpp <serial|openmp|cuda|hip|opencl|metal|dpcpp> <in.okl> <out.cpp> [launcher-out.cpp]
+// exit 0 ok, 3 the parser reported errors (kernel rejected), 4 occa::exception
 #include <fstream>
 #include <iostream>
 #include <sstream>
@@ -7,29 +8,36 @@
 #include <occa.hpp>
 #include <occa/internal/lang/modes/serial.hpp>
 #include <occa/internal/lang/modes/openmp.hpp>
+#include <occa/internal/lang/modes/cuda.hpp>
+#include <occa/internal/lang/modes/hip.hpp>
+#include <occa/internal/lang/modes/opencl.hpp>
+#include <occa/internal/lang/modes/metal.hpp>
+#include <occa/internal/lang/modes/dpcpp.hpp>
 
 int main(int argc, char **argv) {
-  if (argc < 4) { std::cerr << "usage: okl2cpp <serial|openmp> in.okl out.cpp\n"; return 2; }
+  if (argc < 4) { std::cerr << "usage: okl2cpp <mode> in.okl out.cpp [launcher.cpp]\n"; return 2; }
   const std::string mode = argv[1];
   try {
     occa::json props;
     props["okl/validate"] = true;
-    std::string out;
-    bool ok = false;
-    if (mode == "serial") {
-      occa::lang::okl::serialParser parser(props);
-      parser.parseFile(argv[2]);
-      ok = parser.succeeded();
-      if (ok) out = parser.toString();
-    } else {
-      occa::lang::okl::openmpParser parser(props);
-      parser.parseFile(argv[2]);
-      ok = parser.succeeded();
-      if (ok) out = parser.toString();
+    occa::lang::parser_t *parser = 0;
+    bool hasLauncher = true;
+    if (mode == "serial") { parser = new occa::lang::okl::serialParser(props); hasLauncher = false; }
+    else if (mode == "openmp") { parser = new occa::lang::okl::openmpParser(props); hasLauncher = false; }
+    else if (mode == "cuda") parser = new occa::lang::okl::cudaParser(props);
+    else if (mode == "hip") parser = new occa::lang::okl::hipParser(props);
+    else if (mode == "opencl") parser = new occa::lang::okl::openclParser(props);
+    else if (mode == "metal") parser = new occa::lang::okl::metalParser(props);
+    else if (mode == "dpcpp") parser = new occa::lang::okl::dpcppParser(props);
+    else { std::cerr << "unknown mode\n"; return 2; }
+    parser->parseFile(argv[2]);
+    if (!parser->succeeded()) return 3;
+    { std::ofstream f(argv[3]); f << parser->toString(); }
+    if (hasLauncher && argc > 4) {
+      occa::lang::parser_t &lp = ((occa::lang::okl::withLauncher*) parser)->launcherParser;
+      std::ofstream f(argv[4]);
+      f << lp.toString();
     }
-    if (!ok) return 3;
-    std::ofstream f(argv[3]);
-    f << out;
     return 0;
   } catch (occa::exception &e) {
     std::cerr << e.message << "\n";
